@@ -96,13 +96,13 @@ class ReaderWorld(GraphWorld):
             else:
                 self.__dict__.setdefault("_snap_points", []).append((tau, True))
             ip.assign(st.target, tau, env)
-            ip.exec_block(st.body, env)
+            ip.run_loop_body(st, env)
             return
         if isinstance(it, TTEDict):
             key = TupleV([NodeV("X"), NodeV("Y"), Opaque("op")])
             self.iterated.append("events-at-instant")
             ip.assign(st.target, key, env)
-            ip.exec_block(st.body, env)
+            ip.run_loop_body(st, env)
             return
         raise Unsupported(st, "iteration over %r" % (it,))
 
